@@ -1,0 +1,19 @@
+//go:build verif
+
+package proxy
+
+// VerifC12Owners returns, for every registered proxy name, the Hostname of the login message of
+// the session that registered it (the C12 harness tags every login with a distinct Hostname).
+func (pm *Manager) VerifC12Owners() map[string]string {
+	pm.mu.RLock()
+	defer pm.mu.RUnlock()
+	out := make(map[string]string, len(pm.pxys))
+	for name, pxy := range pm.pxys {
+		tag := ""
+		if lm := pxy.GetLoginMsg(); lm != nil {
+			tag = lm.Hostname
+		}
+		out[name] = tag
+	}
+	return out
+}
